@@ -202,10 +202,21 @@ def current_value(a):
 
 
 def sym_json(a, loop_vars):
+    """an expression of a *program*: its measured atoms are MeasuredParameter objects; the subsystem is read from
+    the RegRef they point to (never from the name)"""
+    import strawberryfields.parameters as sfpar
     syms = list(a.free_symbols)
-    meas = sorted({int(s.name[1:]) for s in syms if _is_measured(s)})
-    frees = sorted({s.name for s in syms if not _is_measured(s)})
+    meas = sorted({s.regref.ind for s in syms if isinstance(s, sfpar.MeasuredParameter)})
+    frees = sorted({s.name for s in syms if not isinstance(s, sfpar.MeasuredParameter)})
     return dict(pos=face(a, loop_vars), neg=face(-a, loop_vars), meas=meas, frees=frees, val=current_value(a))
+
+
+def isym_json(a, loop_vars=()):
+    """an expression as an IR holds it: printed forms and the NAMES of its symbols.  Order of the names: those of
+    the form q<digits> by number, then the others alphabetically (the order in which the model's writer lists them)"""
+    names = {s.name for s in a.free_symbols}
+    qs = sorted((n for n in names if re.fullmatch(r"q[0-9]+", n)), key=lambda n: (int(n[1:]), n))
+    return dict(pos=face(a, loop_vars), neg=face(-a, loop_vars), names=qs + sorted(names - set(qs)), val=current_value(a))
 
 
 def strip_val(j):
@@ -233,8 +244,9 @@ def parse_expression(s, k_loop=0):
             names.add(m.group(0))
     try:
         e = parse_expr(t, local_dict={n: sympy.Symbol(n) for n in names})
-        e = e.subs({x: sfpar.FreeParameter(x.name) for x in e.free_symbols if not re.fullmatch(r"q\d+", x.name)})
-        return sym_json(e, [sfpar.FreeParameter(f"p{i}") for i in range(k_loop)])
+        # printed forms in SF notation (free parameters in braces); the symbols stay names
+        e = e.subs({x: sfpar.FreeParameter(x.name) for x in e.free_symbols if not re.fullmatch(r"q[0-9]+", x.name)})
+        return isym_json(e, [sfpar.FreeParameter(f"p{i}") for i in range(k_loop)])
     except Exception:  # noqa: BLE001
         return None
 
@@ -276,7 +288,7 @@ def val_json(v, tdm=False, loop_vars=(), ir=False):
     import sympy
     import blackbird
     if isinstance(v, blackbird.RegRefTransform):
-        return {"rrt": sym_json(v.expr, loop_vars)}
+        return {"rrt": isym_json(v.expr, loop_vars)}
     if isinstance(v, sympy.Basic):
         return {"sym": sym_json(v, loop_vars)}
     if isinstance(v, str):
